@@ -263,6 +263,15 @@ def run_spec(sp):
     pp, vidx = _G['pp'], _G['vidx']
     subs = e1.substances(pp, vidx)
     prelude(pp, subs)
+    if sp['solvent'] in CONTAINERS:
+        # ... nor what other vessel carried this name before: a decoy with the name, fill level and capacity of the solvent
+        # container but another composition is used as the solvent of an earlier call
+        try:
+            real = pp.Container(sp['solvent'], initial_contents=[(subs[n], q) for n, q in CONTAINERS[sp['solvent']]])
+            decoy = pp.Container(sp['solvent'], initial_contents=[(subs['dmso'], f"{real.volume!r} {pp.config.volume_storage_unit}")])
+            pp.Container.create_solution(subs['nacl'], decoy, 'decoy', concentration='0.05 M', total_quantity='5 mL')
+        except ValueError:
+            pass
     built = build_spec(pp, subs, sp)
     if built is None:
         return [], ('skip',)
